@@ -209,6 +209,9 @@ func runC05(c *run.Ctx, s *kit.Summary) {
 	}
 	s.Extra["results_checked"] = total
 	st.Diff(c.Driver, s)
+	if c.Replay == "" {
+		realTransportRuns(c, s, r)
+	}
 	if !raceChild && c.Replay == "" {
 		raceRun(c, s)
 	}
